@@ -9,7 +9,8 @@ PROPS = {
                incr.cs_rules, incr.cs_exact, rot.rot_series, rot.rot_exp, rot.angle_range, geo.wgs_const,
                integrator.carrier, integrator.predict_eff, integrator.kernel_via,
                integrator.wa_forward],
-        decided=['compiled gravity copy equals earth.gravity',
+        decided=['no roll/heading from a half-range inverse function in any hand-written Euler extraction (ANGLE-RANGE); no narrowing to single precision, no buffer with the dtype of a data-valued fill',
+                 'compiled gravity copy equals earth.gravity',
                  'the public Integrator hands the kernel the state it was given and hands out the '
                  'rows the kernel wrote, under the documented labels (carriers, row slice, '
                  'columns, altitude flag)',
@@ -65,7 +66,8 @@ PROPS = {
                lambda c: sched.sched_span(c, (sched.FB,)), sched.step_bound_fb,
                integrator.wa_forward,
                integrator.buf_rules, integrator.last_row, integrator.kernel_via],
-        decided=['the state at an epoch inside a sampling interval is predicted with the elapsed '
+        decided=['per-measurement result lists indexed only where non-empty; every result table is given a time index; epoch list holds time stamps of the streams unchanged; no state block addressed from the end by a size that may be zero',
+                 'the state at an epoch inside a sampling interval is predicted with the elapsed '
                  'fraction of the pending increment',
                  'the one-row prediction made at every epoch writes inside the history buffers '
                  '(capacity test on every path to the compiled kernel)',
@@ -92,7 +94,8 @@ PROPS = {
                lambda c: sched.sched_pair(c, (sched.FF,)),
                lambda c: sched.key_rebind(c, (sched.FF,)), lambda c: sched.empty_guard(c, (sched.FF,)), sched.result_index, layout.layout_state,
                sched.step_bound],
-        decided=['the averaged readings are divided by the positive step handed over, never by a batch-dependent quantity that can vanish',
+        decided=['per-measurement result lists indexed only where non-empty; every result table is given a time index; epoch list holds time stamps of the streams unchanged',
+                 'the averaged readings are divided by the positive step handed over, never by a batch-dependent quantity that can vanish',
                  'documented defaults run', 'termination and strictly increasing output index '
                  '(progress guard)', 'step never beyond max(time step, local gap)',
                  'epoch list de-duplicated, clipped, sentinel last',
@@ -105,7 +108,8 @@ PROPS = {
                meas.meas_jacobian, meas.meas_noise, meas.meas_sim, geo.unit_const,
                lambda c: purity.pur_global(c, ('measurements', 'error_model', 'transform',
                                                'earth', 'util'))],
-        decided=['no function on the measurement path keeps state in a module/class-level array '
+        decided=['H == -dz/dx and the documented residual also for a lever arm with an exactly zero component',
+                 'no function on the measurement path keeps state in a module/class-level array '
                  '(H for one call does not depend on earlier calls)',
                  'absent time returns None before any data access',
                  'every attribute the residual depends on reaches H (lever arm), under the same '
@@ -122,7 +126,8 @@ PROPS = {
     'C02': dict(
         rules=[kernel.row_rec, integrator.buf_rules, integrator.carrier, integrator.carrier_sync,
                integrator.predict_eff, integrator.last_row, integrator.kernel_via, rot.rot_exp, rot.angle_range],
-        decided=['the rotation routine writes all nine entries of its output on every path (the '
+        decided=['the public entry points hand their table to the kernel path unchanged; the trajectory is extended by a plain concat that keeps the time index',
+                 'the rotation routine writes all nine entries of its output on every path (the '
                  'kernel re-uses its scratch matrices from one iteration to the next)',
                  'get_time / get_pva return the latest row',
                  'kernel writes stay inside the buffers for every chunking and capacity (linear '
@@ -136,7 +141,8 @@ PROPS = {
         rules=[integrator.alt_freeze, integrator.es_copy, integrator.es_2drows,
                meas.meas_shape, meas.meas_noise, kernel.row_rec, errmodel.em_2d,
                integrator.wa_forward, integrator.predict_eff, errmodel.jac_shape],
-        decided=['the measurement Jacobians of the error model have 2 rows (position, NED '
+        decided=['methods of a class that stores the altitude mode pass self.with_altitude to every callee that takes one (the compiled kernel included)',
+                 'the measurement Jacobians of the error model have 2 rows (position, NED '
                  'velocity) and 7 columns without altitude on every path, with and without a '
                  'lever arm',
                  'the 2-row noise covariance is the north/east block of the 3-row one',
@@ -152,7 +158,8 @@ PROPS = {
     'C07': dict(
         rules=[kal.kal_rules, kal.tol_gate, kal.use_after_overwrite, lambda c: purity.pur_arg(c, ('kalman',)),
                kal.div_zero],
-        decided=['no public function of kalman writes into an argument (effect analysis: direct '
+        decided=['no branch decided by a tolerance comparison above rounding level (TOL-GATE); no selection by the zero pattern of a cancelling sum (ZERO-BY-SUM); cho_factor triangle followed',
+                 'no public function of kalman writes into an argument (effect analysis: direct '
                  'and augmented assignment, views, callees, overwrite flags)',
                  'gain == P H^T S^-1 with S == H P H^T + R and state update == x + K (z - H x) '
                  '(non-commutative normal form, all inputs)',
@@ -184,7 +191,8 @@ PROPS = {
                forms.form_agree,
                forms.form_agree_tables, forms.util_prod, layout.est_rules, sensor.sm_accum,
                diff.wrap_rules, smmodel.sm_model, smmodel.sm_params, layout.result_form],
-        decided=['the sensor tables (estimator states, simulator parameter table, filter result '
+        decided=['seed parameters never tested by truth value, seed normaliser = library helper or an analysed repository function (RNG-SEED); single-item form tests ask every broadcast argument (FORM-SQUEEZE)',
+                 'the sensor tables (estimator states, simulator parameter table, filter result '
                  'tables) name the same term the same way: sm_<output axis><input axis>, '
                  'bias_<axis> (constructor and Parameters.apply executed for a covering family '
                  'of enable masks)',
@@ -201,7 +209,8 @@ PROPS = {
         rules=[diff.diff_orient, diff.diff_sym, diff.diff_scale, diff.diff_cols, diff.diff_wrap_cols, diff.wrap_rules, diff.res_rules,
                geo.unit_const,
                errmodel.es_perturb, geo.geo_perturb],
-        decided=['difference is +first -second on every path, whichever input is denser',
+        decided=['position columns of the difference scaled by rn*DEG_TO_RAD, rp*DEG_TO_RAD, -1 (N1); common columns = intersection; kept times cut to the span of the interpolated table on every path',
+                 'difference is +first -second on every path, whichever input is denser',
                  'angle reduction maps every real angle into (-180, 180] congruent mod 360 '
                  '(interval proof, array and scalar arms)',
                  'resampling clips to the span, keeps column order, SLERP for attitude / linear '
@@ -332,7 +341,8 @@ PROPS = {
         rules=[geo.geo_curv, geo.parity, errmodel.em_linear, errmodel.prop_consist, errmodel.em_2d, errmodel.em_units,
                errmodel.em_frame, errmodel.em_gravgrad, errmodel.es_first, kernel.ker_consist,
                kernel.sib_grav, geo.wgs_const, integrator.wa_forward],
-        decided=['propagate_errors: one-step map consistent with x\' = F x + B_gyro e_g + B_accel e_a, initial error through transform_to_internal of the first row, output through transform_to_output',
+        decided=['propagate_errors: each interval propagated over its own length; the identity added to every interval; default initial error installed under `is None`, labelled; result tables hold data and the trajectory time index',
+                 'propagate_errors: one-step map consistent with x\' = F x + B_gyro e_g + B_accel e_a, initial error through transform_to_internal of the first row, output through transform_to_output',
                  'F, B_gyro, B_accel equal the symbolic linearisation of the navigation equations '
                  '(assembled from earth.*) in the error coordinates that correct_pva implements: '
                  'exactly for a stationary vehicle and in every velocity-dependent entry the model '
